@@ -203,6 +203,67 @@ class BuiltinsMixin:
             return VBool(z3.Exists([q], z3.And(rng, body(elem(q)))))
         return VBool(z3.ForAll([q], z3.Implies(rng, body(elem(q)))))
 
+    def bi_sorted(self, args, kw, st, fr):
+        """sorted(<keys of a dict>, key=...) : a fresh list whose elements
+        are keys of the dict and whose length is the dict's size.  The
+        *order* is not modelled (callers here only take an element)."""
+        src = args[0]
+        cont = None
+        if isinstance(src, VPy) and isinstance(src.obj, tuple) and \
+                src.obj[0] == "ast":
+            gen, gfr = src.obj[1], src.obj[2]
+            if isinstance(gen, ast.GeneratorExp) and \
+                    len(gen.generators) == 1 and \
+                    not gen.generators[0].ifs and \
+                    isinstance(gen.elt, ast.Name) and \
+                    isinstance(gen.generators[0].target, ast.Name) and \
+                    gen.elt.id == gen.generators[0].target.id:
+                it = self.ev(gen.generators[0].iter, st, gfr)
+                un = self.unordered_desc(it, st, gfr)
+                if un and un[1] in ("keys", "elems"):
+                    cont = un[0]
+        else:
+            un = self.unordered_desc(src, st, fr)
+            if un and un[1] in ("keys", "elems"):
+                cont = un[0]
+        if cont is None:
+            raise Unsupported("sorted() of this iterable")
+        self.uni.note_assumption(
+            "sorted(keys, key=...) returns a list of exactly the keys; the "
+            "order produced by the key function is not modelled")
+        ktag = self.key_tag(cont)
+        lst = self.alloc(st, "list", ktag, "sorted")
+        arr = fresh("sorted_items", z3.ArraySort(INT, sort_of(base_tag(ktag))))
+        n = self.card(cont, st)
+        self.set_list(lst, st, arr, n)
+        i = z3.Int(fresh_name("i"))
+        mem = self.members(cont, st)
+        st.assume(z3.ForAll([i], z3.Implies(z3.And(0 <= i, i < n),
+                                            z3.Select(mem, arr[i]))))
+        return lst
+
+    def bi_select_set(self, args, kw, st, fr):
+        """spec: the contents of a set object as a value (comparable by ==)"""
+        o = args[0]
+        return VPy(("zset", self.s_arr(o, st), o.elem))
+
+    def bi_card(self, args, kw, st, fr):
+        return VInt(self.card(args[0], st))
+
+    def bi_set(self, args, kw, st, fr):
+        if args:
+            raise Unsupported("set(iterable)")
+        obj = self.alloc(st, "set", None, "set")
+        st.write("$card", obj.e, z3.IntVal(0), "int")
+        return obj
+
+    def bi_dict(self, args, kw, st, fr):
+        if args or kw:
+            raise Unsupported("dict(...)")
+        obj = self.alloc(st, "dict", None, "dict")
+        st.write("$card", obj.e, z3.IntVal(0), "int")
+        return obj
+
     def bi_hasattr(self, args, kw, st, fr):
         """hasattr(obj, 'name') depends only on the dynamic class"""
         name = self.concrete(args[1])
@@ -305,6 +366,7 @@ class BuiltinsMixin:
         sub = Frame(fr.func, fr.cls, fr.contract, env=env, spec=True)
         sub.old, sub.result = fr.old, fr.result
         sub.entry_state = getattr(fr, "entry_state", None)
+        sub.head_state = getattr(fr, "head_state", None)
         body = self.truth(self.ev(lam.body, st, sub), st)
         q = z3.ForAll(bound, body) if name == "forall" else \
             z3.Exists(bound, body)
@@ -394,39 +456,6 @@ class BuiltinsMixin:
             self.set_list(recv, st, *models.list_pop(items, n, k))
             return NONE
         raise Unsupported(f"list.{name}")
-
-    def setop(self, recv, name, args, kw, st, fr):
-        kt = base_tag(recv.elem)
-        f, tag = "$set." + kt, f"set[{kt}]"
-        cur = st.read(f, recv.e, tag)
-        if name in ("add", "discard", "remove"):
-            x = self.to_z3(args[0])
-            if name == "remove":
-                if not self.dec.branch(st, z3.Select(cur, x)):
-                    raise PyRaise(VExc("KeyError"))
-            st.write(f, recv.e, z3.Store(cur, x, z3.BoolVal(name == "add")),
-                     tag)
-            st.havoc_at("$card", recv.e) if hasattr(st, "havoc_at") else None
-            return NONE
-        if name == "copy":
-            new = self.alloc(st, "set", recv.elem, "scopy")
-            st.write(f, new.e, cur, tag)
-            return new
-        raise Unsupported(f"set.{name}")
-
-    def dictop(self, recv, name, args, kw, st, fr):
-        if name in ("items", "keys", "values"):
-            return VPy(("dict" + name, recv))
-        kt, vt = recv.elem
-        kb, vb = base_tag(kt), base_tag(vt)
-        if name == "get":
-            dom = st.read("$dom." + kb, recv.e, f"set[{kb}]")
-            mp = st.read(f"$map.{kb}.{vb}", recv.e, f"map[{kb},{vb}]")
-            k = self.to_z3(args[0])
-            if self.dec.branch(st, z3.Select(dom, k)):
-                return self.mkval(z3.Select(mp, k), vt)
-            return args[1] if len(args) > 1 else NONE
-        raise Unsupported(f"dict.{name}")
 
     def pyop(self, recv, name, args, kw, st, fr):
         obj = recv.obj
